@@ -11,6 +11,7 @@ CONSTANTS MinClasses,
           MaxHard,      \* hard-coded keyword arguments per forwarding call
           MaxPop,       \* kwargs.pop/get calls per def
           PopClasses,   \* ... in programs with at most this many classes
+          AttrClasses,  \* the "attr" kind (stored **kwargs) in programs with at most this many classes
           B1, B2, B3, B4, B5,   \* Budgets[n]: bound on the total weight of a program with n classes (named parameters + hard-coded
                         \* names + pops + helper functions + methods)
           MaxChain,     \* depth of the function chains that are components themselves
@@ -18,6 +19,7 @@ CONSTANTS MinClasses,
           BFn,          \* bound on the total weight (named parameters + hard-coded names + pops) of such a chain
           EmitAllUpTo,  \* print every complete program with at most this many classes ...
           Sel,          \* ... and one in Sel of the larger ones (chosen by a hash of the program and the seed)
+          CondSel,      \* ... and one in CondSel of those whose resolved parameters contain a Conditional one
           KeepGoing     \* TRUE: a failing clause is printed (<<"FAIL", clause, program>>) and the run goes on to find them all
 
 Budgets == <<B1, B2, B3, B4, B5>>
@@ -116,7 +118,8 @@ Descs(i, anc, methAbove, left, shp) ==
       /\ MroOnly => d.kind \notin {"func", "meth", "new", "attr"}
       /\ d.ch = NewChain => i > 1
       /\ d.mhas => (d.kind = "meth" \/ methAbove)
-      /\ d.q # {} => Len(shp) <= PopClasses}
+      /\ d.q # {} => Len(shp) <= PopClasses
+      /\ d.kind = "attr" => Len(shp) <= AttrClasses}
 
 (* ---- shapes: base lists such that every class statement is legal and every class is an ancestor of the last one  *)
 BaseSeqs(i) == {<< >>} \cup {<<x>> : x \in 1..(i - 1)} \cup {<<x, y>> : x \in 1..(i - 1), y \in (1..(i - 1))}
@@ -219,7 +222,8 @@ Inv ==
   /\ (~call \/ dev # "-" \/ (NoDup(ps) /\ OfferAgrees(ref, OfferOf(ps)))) \/ Say("alg-refines-ref")
   /\ (~call \/ dev # "-" \/ topHard \cap NamesOf(ps) = {}) \/ Say("alg-hard-not-offered")
   \* the programs to replay on the real code, with what the specification expects of them
-  /\ Selected => PrintT(ToJson(
+  \* (programs in which the resolver reports a Conditional parameter are few and delicate: one in CondSel is printed)
+  /\ (Selected \/ (call /\ (h + Seed) % CondSel = 0 /\ \E j \in DOMAIN ps : ps[j].d = "cond")) => PrintT(ToJson(
        [prog |-> P, comp |-> Comp, h |-> h, w |-> w, callable |-> call, univ |-> SetToSeq(U),
         req   |-> IF call THEN SetToSeq(Required(T)) ELSE << >>,
         acc   |-> IF call THEN SetToSeq(Accepted(T)) ELSE << >>,
